@@ -7,7 +7,7 @@ import os
 
 from checks import c06
 from vlib import cbcase, core, observe
-from vlib.core import Result, make_violation
+from vlib.core import Result, make_violation  # noqa
 
 PROP = "C08"
 RULE = (
@@ -173,6 +173,112 @@ def check_case(case, res: Result, cli=False):
     return vs
 
 
+# ---------------------------------------------------------------- stateful layer: the history is built step by step
+
+
+def _stateful_shard(seed, n, known, steps):
+    """Hypothesis rule-based machine: the code base is drawn once, rules append a
+    compile command to a platform / move a command to the front / drop a platform;
+    after every step the full analysis must equal the union of fresh
+    single-command analyses (cached per command).  A failing history shrinks as
+    one value."""
+    core.setup_import_path()
+    import hypothesis
+    from hypothesis import settings, strategies as st
+    from hypothesis.stateful import RuleBasedStateMachine, initialize, invariant, precondition, rule, run_state_machine_as_test
+
+    from vlib import gen_cb, gen_pp
+
+    res = Result()
+    found = {}
+
+    class History(RuleBasedStateMachine):
+        def __init__(self):
+            super().__init__()
+            self.scratch = core.Scratch("c08s")
+            self.top = self.scratch.__enter__()
+            self.root = os.path.join(self.top, "cb")
+            os.makedirs(self.root)
+            self.case = None
+            self.single = {}
+            self.nsteps = 0
+
+        @initialize(base=gen_cb.codebases(min_platforms=1, max_platforms=2, header_bias=True, symlinks=False, max_files=6))
+        def start(self, base):
+            base["platforms"] = {p: [] for p in base["platforms"]}
+            self.case = base
+            self.srcs = sorted(n for n in base["tree"] if not n.endswith((".h", ".hpp"))) or sorted(base["tree"])
+            self.hdirs = sorted({os.path.dirname(h) or "." for h in base["tree"] if h.endswith((".h", ".hpp"))})
+
+        @rule(data=st.data())
+        def add_command(self, data):
+            p = data.draw(st.sampled_from(sorted(self.case["platforms"])))
+            cmd = {"file": data.draw(st.sampled_from(self.srcs)), "defines": data.draw(gen_pp.define_sets()), "dirs": [["I", d] for d in data.draw(st.lists(st.sampled_from(self.hdirs), max_size=2, unique=True))] if self.hdirs else [], "forced": []}
+            self.case["platforms"][p].append(cmd)
+            self.nsteps += 1
+
+        @precondition(lambda self: self.case and any(len(c) >= 2 for c in self.case["platforms"].values()))
+        @rule(data=st.data())
+        def move_to_front(self, data):
+            p = data.draw(st.sampled_from(sorted(k for k, c in self.case["platforms"].items() if len(c) >= 2)))
+            cmds = self.case["platforms"][p]
+            i = data.draw(st.integers(1, len(cmds) - 1))
+            cmds.insert(0, cmds.pop(i))
+            self.nsteps += 1
+
+        @precondition(lambda self: self.case and len(self.case["platforms"]) >= 2)
+        @rule(data=st.data())
+        def drop_platform(self, data):
+            p = data.draw(st.sampled_from(sorted(self.case["platforms"])))
+            del self.case["platforms"][p]
+            self.nsteps += 1
+
+        @invariant()
+        def composes(self):
+            if not self.case or not any(self.case["platforms"].values()):
+                return
+            m = cbcase.materialise(self.case, self.root)
+            full, _, _ = attrs(self.root, m["dbs"])
+            union = {f: {l: set() for l in a} for f, a in full.items()}
+            for pname, cmds in self.case["platforms"].items():
+                for cmd in cmds:
+                    key = json.dumps([pname, cmd], sort_keys=True)
+                    if key not in self.single:
+                        dbp = os.path.join(self.top, f"one-{len(self.single)}.json")
+                        with open(dbp, "w") as fh:
+                            json.dump([{"directory": self.root, "file": cmd["file"], "arguments": cbcase.argv_for(cmd)}], fh)
+                        self.single[key], _, _ = attrs(self.root, {pname: dbp})
+                    for f, a in self.single[key].items():
+                        for l, ps in a.items():
+                            union.setdefault(f, {}).setdefault(l, set()).update(ps)
+            union = {f: {l: frozenset(s) for l, s in a.items()} for f, a in union.items()}
+            d = first_diff(full, {f: union.get(f, {}) for f in full})
+            ncmd = sum(len(c) for c in self.case["platforms"].values())
+            res.case(key=[m["texts"], self.case["platforms"]], nontrivial=ncmd >= 2, sample={"history_length": self.nsteps, "platforms": {p: [cbcase.argv_for(c) for c in cs] for p, cs in self.case["platforms"].items()}} if ncmd >= 3 else None, labels=[f"stateful:commands={min(ncmd,8)}"])
+            if d:
+                sig = "stateful:full-analysis-differs-from-union-of-single-commands"
+                if sig in known:
+                    res.suppressed[sig] += 1
+                    return
+                found[sig] = make_violation(sig, {"case": self.case, "texts": m["texts"]}, d, "left=full analysis after this history, right=union of fresh single-command analyses")
+                raise AssertionError(sig)
+
+        def teardown(self):
+            self.scratch.__exit__(None, None, None)
+
+    try:
+        run_state_machine_as_test(
+            hypothesis.seed(seed)(History),
+            settings=settings(max_examples=n, stateful_step_count=steps, deadline=None, database=None, report_multiple_bugs=False, suppress_health_check=list(hypothesis.HealthCheck), print_blob=False),
+        )
+    except AssertionError:
+        for v in found.values():
+            res.violation(**v)
+    except hypothesis.errors.HypothesisException as e:
+        raise core.HarnessError(f"hypothesis: {type(e).__name__}: {e}")
+    return res
+
+
 def _shard(seed, n, known, cli):
     core.setup_import_path()
     res = Result()
@@ -180,12 +286,18 @@ def _shard(seed, n, known, cli):
     return res
 
 
+def _dispatch(job):
+    fn, a = job
+    return fn(*a)
+
+
 def run(ctx):
     n = core.NPROC
     napi, ncli = ctx.pick(300, 10000), ctx.pick(16, 500)
-    jobs = [(ctx.shard_seed("api", i), max(1, napi // (n - 4)), ctx.known_sigs, False) for i in range(n - 4)]
-    jobs += [(ctx.shard_seed("cli", i), max(1, ncli // 4), ctx.known_sigs, True) for i in range(4)]
-    res = core.merge_results(core.pool_map(_shard, jobs))
+    jobs = [(_shard, (ctx.shard_seed("api", i), max(1, napi // (n - 8)), ctx.known_sigs, False)) for i in range(n - 8)]
+    jobs += [(_shard, (ctx.shard_seed("cli", i), max(1, ncli // 4), ctx.known_sigs, True)) for i in range(4)]
+    jobs += [(_stateful_shard, (ctx.shard_seed("stateful", i), ctx.pick(6, 200), ctx.known_sigs, ctx.pick(8, 30))) for i in range(4)]
+    res = core.merge_results(core.pool_map(_dispatch, [(j,) for j in jobs]))
     res.exhaustive = False
     return res
 
